@@ -572,6 +572,9 @@ impl Transport for LocalTransport {
             // Strategy 1: COW clone + selective writes (fast on APFS/BTRFS/XFS)
             // Strategy 2: In-place delta (for ext4, hard links, cross-filesystem)
             let temp_dest = working_file_path(&dest);
+            // Whatever is at the working-file path (an interrupted run's leftover, or a
+            // symlink) is never written through: the working file is always a fresh entry
+            let _ = fs::remove_file(&temp_dest);
             let temp_guard = TempFileGuard::new(&temp_dest);
 
             let (bytes_written, literal_bytes, changed_blocks) = if use_cow_strategy {
